@@ -92,8 +92,9 @@ class C10(Prop):
           "Oracle: per source the posting instants equal exactly t0+p, t0+2p, ... (deferred) or "
           "t0, t0+p, ... (not deferred), computed by the same repeated float addition; exactly n "
           "postings by the horizon (max n +3 periods later) for n >= 1, the matching prefix for "
-          "n = 0; replaying the observed postings into a model deque (fifo back, lifo front) gives "
-          "the dispatch order. Non-trivial: a source with n >= 2 or >= 2 sources; distinct = "
+          "n = 0; with the consumer parked, the dispatch order after the gate is explained by "
+          "some order of the postings that respects their [invoke, return] step intervals in a "
+          "model deque (fifo back, lifo front). Non-trivial: a source with n >= 2 or >= 2 sources; distinct = "
           "distinct case digests.")
   assumptions = ["time.sleep / time.time inside miros.activeobject are the virtual clock's",
                  "two sources firing at the same virtual instant may post in either order"]
@@ -168,20 +169,63 @@ class C10(Prop):
       if ids[k] is None:
         raise PropertyViolation("timed post %d returned no id" % k, "C10:id")
     if case["parked"]:
-      # placement: replay the observed posts (in their observed order) into a model deque
-      dq = []
-      for p in rec.posts:
-        if p["sig"] == "VGATE":
-          continue
-        key = (p["sig"], p["id"])
-        if p["kind"] == "fifo":
-          dq.append(key)
-        else:
-          dq.insert(0, key)
+      # placement: while the consumer is parked nothing is popped, so the dispatch order after the
+      # gate must be explained by SOME order of the posts that respects their [invoke, return]
+      # intervals (two timers firing at one instant may overlap), fifo = back, lifo = front
+      posts = [dict(p, id=(p["sig"], p["id"], n)) for n, p in enumerate(rec.posts) if p["sig"] != "VGATE"]
       got = [(d["sig"], d["id"]) for d in rec.dispatch if d["sig"] != "VGATE"]
-      if got != dq:
-        raise PropertyViolation("dispatch order %s, a deque fed with the observed posts gives %s" % (
-          got, dq), "C10:placement")
+      if sorted(x["id"][:2] for x in posts) != sorted(got):
+        raise PropertyViolation("posted %s while parked, dispatched %s" % (
+          [x["id"][:2] for x in posts], got), "C10:placement")
+      if len(posts) <= 12:
+        last = max([p["ret"] or 0 for p in posts] or [0]) + 1
+        # equal (sig, id) posts are interchangeable: label the pops greedily by first unused match
+        unused = list(posts)
+        pops = []
+        ok_labels = True
+        for g in got:
+          m = next((x for x in unused if x["id"][:2] == g), None)
+          if m is None:
+            ok_labels = False
+            break
+          unused.remove(m)
+          pops.append({"id": m["id"], "inv": last, "ret": last + 1})
+        from .. import aocheck
+        ok = ok_labels and self.placement_ok(posts, got, last)
+        if not ok:
+          raise PropertyViolation("dispatch order %s is not explained by any order of the posts %s made "
+                                  "while the consumer was parked (fifo = back, lifo = front)" % (
+                                    got, [(x["kind"],) + x["id"][:2] + (x["inv"], x["ret"]) for x in posts]),
+                                  "C10:placement")
+      else:
+        stats.exclude("placement_not_checked(>12 posts)")
+
+  @staticmethod
+  def placement_ok(posts, got, last):
+    """Search for an interval-respecting order of the posts whose deque result is `got`."""
+    n = len(posts)
+    before = [set(j for j in range(n) if j != i and posts[j]["ret"] is not None and posts[j]["ret"] < posts[i]["inv"])
+              for i in range(n)]
+    seen = set()
+
+    def rec_(done, dq):
+      if len(done) == n:
+        return list(dq) == list(got)
+      key = (done, dq)
+      if key in seen:
+        return False
+      seen.add(key)
+      if len(seen) > 200000:
+        return True          # search budget exhausted: do not report
+      for i in range(n):
+        if i in done or not before[i] <= done:
+          continue
+        k = posts[i]["id"][:2]
+        nd = dq + (k,) if posts[i]["kind"] == "fifo" else (k,) + dq
+        if rec_(done | {i}, nd):
+          return True
+      return False
+    return rec_(frozenset(), ())
 
 
 PROP = C10
